@@ -459,11 +459,37 @@ class Conversations(Suite):
             r = (f"after-unprintable-exception/{pair}",
                  "after a message whose serialisation raised an exception whose str() raises: " + r[1], r[2])
         if r is not None and isinstance(r[2], dict) and r[2].get("carrier"):
-            # the declared metadata of a reply against its bytes: one class per dimension, whatever form the damage takes
-            cls = G.label_class(case, r[2]["carrier"])
+            # dimensions that have a finding of their own: blamed when the difference goes away without them
+            cls = self._blame(case, obs, r[2]["carrier"])
             if cls is not None:
                 r = (f"{cls}/{r[2]['carrier']}", LABEL_CLASSES[cls] + ": " + r[1], r[2])
         return r
+
+    def _verdict(self, case, obs):
+        uns = self.unsendable(case)
+        view = {c: self.masked(o, uns) for c, o in obs.items()}
+        return self._oracle_core(case, view) or self._oracle_twins(case, view, uns)
+
+    def _blame(self, case, obs, carrier):
+        """re-runs the carrier on the case without each such dimension (one at a time, then all of them)"""
+        ns = G.neutralisations(case, carrier)
+
+        def still(c2):
+            o2 = dict(obs)
+            o2[carrier] = H.run_carrier(c2, carrier)
+            r2 = self._verdict(c2, o2)
+            return r2 is not None and isinstance(r2[2], dict) and r2[2].get("carrier") == carrier
+        for cls, c2 in ns:
+            if not still(c2):
+                return cls
+        if len(ns) > 1:
+            # only together: blame the first one in the order of `neutralisations` (a regression of a fixed one first)
+            c2 = case
+            for cls, _ in ns:
+                c2 = dict(G.neutralisations(c2, carrier)).get(cls, c2)
+            if not still(c2):
+                return ns[0][0]
+        return None
 
     def _oracle_twins(self, case, view, uns):
         """several transport instances of one carrier alive at once, each with its own server playing the
